@@ -135,7 +135,7 @@ def parse_assumptions(out):
     return res
 
 
-def build(prop):
+def build(prop, corr=None):
     """regenerate Extracted.v, build the model + correspondence driver and the
     property's theorem file; returns a dict describing the obligations"""
     info = {"prop": prop, "model_ok": False, "proofs_ok": False, "obligations": 0, "discharged": 0,
@@ -144,7 +144,7 @@ def build(prop):
         ex = run_extract()
         info["extract"] = ex
         ensure_makefile()
-        rc, out, dt = make(["Corr/%s.vo" % prop])
+        rc, out, dt = make(["Corr/%s.vo" % (corr or prop)])
         info["model_ok"] = (rc == 0)
         info["log"] += out[-4000:]
         if rc != 0:
